@@ -360,6 +360,9 @@ func cmdCheck(args []string) {
 	if prop == "C17" {
 		defRuns = 400 // every block asks ~100 queries on four routes
 	}
+	if prop == "C20" {
+		defRuns = 700 // two lockstep replicas, crash replays and the two-process restarts
+	}
 	quickRuns := envInt("VERIF_RUNS", defRuns)
 	budget := time.Duration(envInt("VERIF_BUDGET_S", 900)) * time.Second
 	if !thorough {
